@@ -14,6 +14,15 @@ NOTES = {
  "C15-m1": "strengthened: a second topic with data in the same stream",
  "C19-m1": "strengthened: a stored payload byte is damaged while the server is down; the poll must report it",
  "C19-m2": "strengthened: the restart with the same key must itself succeed (the harness no longer keeps serving from the old instance after a failed start)",
+ "C03-m3": "strengthened: restarts with the index files removed (rebuilt from the logs at start-up)",
+ "C05-m4": "strengthened: administrative commands from several connections at once, then restart",
+ "C06-m3": "strengthened (in C07): a group's offsets end with the group; same-numbered consumer and re-created group",
+ "C07-m4": "strengthened (in C08): manual commit without naming the partition after a poll",
+ "C08-m3": "strengthened: restarts inside group histories",
+ "C08-m4": "strengthened: the group addressed by name as well as by number",
+ "C09-m3": "strengthened: the permission record in force (also 'none') must survive a restart",
+ "C10-m4": "strengthened: an administrator changes another user's password, then a restart (journal replay must change that user's, not the issuer's); get_me made observable by granting read_servers",
+ "C09-m4": "strengthened: requests after logout on the same connection must be unauthenticated",
  "C12-m2": "strengthened: producers poll from their own cursor right after each send (no-wait window)",
 }
 rows = []
